@@ -115,6 +115,7 @@ func workC06(c *shardCtx) {
 		if !c.mine(ei) {
 			continue
 		}
+		c.journal("C06 expression " + text)
 		jp, cerr, pn := impl.Compile(text)
 		if pn != nil || cerr != nil {
 			c.add("uncompilable", 1)
